@@ -244,3 +244,36 @@ UNITS += [
     report_unit('R_.succeed', r'^ffsm2::detail::R_<', 'succeed', None, 'tasksSuccesses', 'SUCCESS', 'SUCCEEDED', 'self->_core'),
     report_unit('R_.fail', r'^ffsm2::detail::R_<', 'fail', None, 'tasksFailures', 'FAILURE', 'FAILED', 'self->_core'),
 ]
+
+# ---- PlanDataT: the functions other units assume by contract (clear / clearTaskStatus / clearRegionStatuses)
+import contracts.c17 as _c17
+PDX = 'self'
+def _pd_bit(arr, st):
+    return '((self->%s._storage[(%s) >> 3] >> ((%s) & 7)) & 1u)' % (arr, st, st)
+def pd_unit(id_, name, nparams, contract, **kw):
+    u = dict(id='plans.PlanDataT.' + id_, witness=W, recs=_c17.C17_RECS, opaque=[r'^Ctx$', r'LoggerInterfaceT<'], props=['C09', 'C08', 'C10', 'C18'], consts=_c17.C17_CONSTS,
+             ghost=c10.PL_GHOST + ['uint8_t g_st;   /* arbitrary state id */'],
+             array_max={'TaskListT._items': _c17.CAPMAX, 'TaskLinks._items': _c17.CAPMAX, 'Payloads._items': _c17.CAPMAX, 'TasksBits._storage': 1},
+             need_consts=['TaskListT.CAPACITY', 'TasksBits.CAPACITY'], target=dict(cls=r'^ffsm2::detail::PlanDataT<', name=name, nparams=nparams),
+             contracts={'@target': contract}, unwindset=dict(_c17.C17_UNWIND, **{'TaskLinks__fill.0': _c17.CAPMAX + 1, 'Payloads__fill.0': _c17.CAPMAX + 1}), object_bits=12,
+             bounded='task capacity <= %d, state count <= 8 (array loops unwound)' % _c17.CAPMAX)
+    u.update(kw)
+    return u
+UNITS += [
+    # clear(): what R_::finalExit / load rely on -- no plan exists afterwards, no task, no report, no region status
+    pd_unit('clear', 'clear', 0, dict(
+        requires=[fresh('self'), 'g_st < 8'], assigns=['*self'],
+        ensures=[('C09', '!self->planExists'),
+                 ('C10', 'pl_wf(self) && self->tasks._count == 0 && self->tasksBounds.first == 255 && self->tasksBounds.last == 255'),
+                 ('C08', '%s == 0 && %s == 0' % (_pd_bit('tasksSuccesses', 'g_st'), _pd_bit('tasksFailures', 'g_st'))),
+                 ('C09', 'self->headStatus.result == TaskStatus_Result__NONE && self->subStatus.result == TaskStatus_Result__NONE')])),
+    # clearTaskStatus(s): exactly the reports of s are dropped (called on exit of s)
+    pd_unit('clearTaskStatus', 'clearTaskStatus', 1, dict(
+        requires=[fresh('self'), 'g_st < TasksBits__CAPACITY', 'stateId == 255 || stateId < TasksBits__CAPACITY'],
+        assigns=['self->tasksSuccesses', 'self->tasksFailures'],
+        ensures=[('C08', '%s == ((g_st == stateId) ? 0u : ((__CPROVER_old(self->tasksSuccesses._storage[g_st >> 3]) >> (g_st & 7)) & 1u))' % _pd_bit('tasksSuccesses', 'g_st')),
+                 ('C08', '%s == ((g_st == stateId) ? 0u : ((__CPROVER_old(self->tasksFailures._storage[g_st >> 3]) >> (g_st & 7)) & 1u))' % _pd_bit('tasksFailures', 'g_st'))])),
+    pd_unit('clearRegionStatuses', 'clearRegionStatuses', 0, dict(
+        requires=[fresh('self')], assigns=['self->headStatus', 'self->subStatus'],
+        ensures=[('C09', 'self->headStatus.result == TaskStatus_Result__NONE && self->subStatus.result == TaskStatus_Result__NONE')])),
+]
